@@ -600,9 +600,7 @@ def uses_missing_ref(e, env):
         return False
     if e[0] == 'nav' and e[1] in env and env[e[1]].get(e[2]) is None:
         return True
-    if e[0] in ('aggrgen', 'exists', 'subin'):
-        # inner loops bind their own variable; only the parts over outer variables are inspected
-        return any(uses_missing_ref(x, env) for x in e[1:] if isinstance(x, list) and x and x[0] == 'nav')
+    # inner loops (aggrgen / exists / subin) bind their own, differently named variable, which is not in env
     return any(uses_missing_ref(x, env) for x in e[1:] if isinstance(x, list))
 
 
